@@ -163,7 +163,8 @@ Theorem C01_worker_spins :
 Proof. exact worker_spins. Qed.
 Print Assumptions C01_worker_spins.
 
-(* the loop as it stands since the repair (MAX_STALLED_ROUNDS = 16; RoundTrip.gworker): whenever it
+(* the loop as it stands since the repairs (MAX_STALLED_ROUNDS = 16; a round is stalled when nothing is delivered, no
+   input is taken and no coder of the chain puts anything out: Decomp.idle; RoundTrip.gworker): whenever it
    returns it returns what Decomp.v's loop returns, so everything above and below holds of it ... *)
 Theorem C01_guarded_worker_refines :
   forall (dst : Type) (dstep : dst -> bytes -> Z -> dst * bytes) (failed : dst -> bool)
@@ -280,7 +281,8 @@ Theorem C01_aes_enc_contract :
 Proof. exact aes_enc_contract. Qed.
 Print Assumptions C01_aes_enc_contract.
 
-(* AESDecompressor: correct for the chunk schedules satisfying dec_chunks_ok ... *)
+(* AESDecompressor: correct for the chunk schedules satisfying dec_chunks_ok (no EMPTY chunk on a non-empty
+   residue; since the repair of the unaligned branch nothing else is required) ... *)
 Theorem C01_aes_decompress_chunking :
   forall (Db : bytes -> bytes) (iv : bytes) (chunks : list bytes),
     Aes.dec_chunks_ok 0 chunks = true ->
@@ -326,28 +328,37 @@ Theorem C01_aes_regular_schedules_ok :
 Proof. exact dec_chunks_ok_regular. Qed.
 Print Assumptions C01_aes_regular_schedules_ok.
 
-(* the unrestricted statement is FALSE: a non-empty chunk meeting a non-empty residue without
-   completing a block raises (negative slice, then a misaligned decrypt) ... *)
-Theorem C01_aes_decompress_short_refuted :
-  exists (iv : bytes) (chunks : list bytes),
-    (let '(st, out) := Aes.decompress_all Aes.toyD (Aes.dinit iv) chunks in
-     let '(_, tail) := Aes.aes_decompress Aes.toyD st [] in out ++ tail)
-    <> fst (Aes.cbc_dec Aes.toyD iv (Aes.pad16 (concat chunks))) /\
-    Aes.decompress_all_chk Aes.toyD (Aes.dinit iv) chunks = Err EOther /\
-    fst (Aes.cbc_dec Aes.toyD iv (Aes.pad16 (concat chunks))) = Aes.ex_plain 32 /\
-    Aes.dec_chunks_ok 0 chunks = false.
-Proof. exact Aes.aes_decompress_short_refuted. Qed.
-Print Assumptions C01_aes_decompress_short_refuted.
+(* ... in particular for EVERY chunking into non-empty chunks, whatever their sizes (short reads at volume
+   boundaries, block sizes below 16) ... *)
+Theorem C01_aes_decompress_chunking_nonempty :
+  forall (Db : bytes -> bytes) (iv : bytes) (chunks : list bytes),
+    Forall (fun d => 0 < Aes.blen d) chunks ->
+    let '(st, out) := Aes.decompress_all Db (Aes.dinit iv) chunks in
+    let '(_, tail) := Aes.aes_decompress Db st [] in
+    out ++ tail = fst (Aes.cbc_dec Db iv (Aes.pad16 (concat chunks))).
+Proof. exact Aes.aes_decompress_chunking_nonempty. Qed.
+Print Assumptions C01_aes_decompress_chunking_nonempty.
 
-Theorem C01_aes_decompress_short_raises :
+(* ... because a non-empty chunk that does not complete a block together with the residue is kept for the next
+   call (before the repair: negative slice, misaligned decrypt, ValueError) *)
+Theorem C01_aes_decompress_short_buffered :
   forall (Db : bytes -> bytes) (st : Aes.dstate) (d : bytes),
-    0 < Aes.blen (Aes.dbuf st) -> 0 < Aes.blen d ->
-    Aes.blen (Aes.dbuf st) + Aes.blen d < 16 -> Aes.aes_decompress_chk Db st d = Err EOther.
-Proof. exact Aes.aes_decompress_chk_err. Qed.
-Print Assumptions C01_aes_decompress_short_raises.
+    0 < Aes.blen d -> Aes.blen (Aes.dbuf st) + Aes.blen d < 16 ->
+    Aes.aes_decompress_chk Db st d = Ok ({| Aes.dbuf := Aes.dbuf st ++ d; Aes.dcst := Aes.dcst st |}, []) /\
+    Aes.aes_decompress Db st d = ({| Aes.dbuf := Aes.dbuf st ++ d; Aes.dcst := Aes.dcst st |}, []).
+Proof. exact Aes.aes_decompress_short_buffered. Qed.
+Print Assumptions C01_aes_decompress_short_buffered.
 
-(* ... and an EMPTY chunk arriving on a non-empty residue pads prematurely and corrupts the
-   stream without any exception *)
+(* the schedule that used to raise: 32 bytes of ciphertext delivered as 5 + 5 + 22 bytes *)
+Theorem C01_aes_decompress_short_chunks_ok :
+  Aes.dec_chunks_ok 0 Aes.ex_short_chunks = true /\
+  (exists r, Aes.decompress_all_chk Aes.toyD (Aes.dinit Aes.ex_iv) Aes.ex_short_chunks = Ok r) /\
+  Aes.decompress_stream Aes.toyD Aes.ex_iv Aes.ex_short_chunks = Aes.ex_plain 32.
+Proof. exact Aes.aes_decompress_short_chunks_ok. Qed.
+Print Assumptions C01_aes_decompress_short_chunks_ok.
+
+(* what remains excluded: an EMPTY chunk arriving on a non-empty residue pads prematurely and corrupts the
+   stream without any exception (decompress(b"") is the end-of-stream call) *)
 Theorem C01_aes_decompress_empty_chunk_refuted :
   exists (iv : bytes) (chunks : list bytes),
     Aes.decompress_stream Aes.toyD iv chunks <> fst (Aes.cbc_dec Aes.toyD iv (Aes.pad16 (concat chunks))) /\
@@ -356,35 +367,36 @@ Theorem C01_aes_decompress_empty_chunk_refuted :
 Proof. exact Aes.aes_decompress_empty_chunk_refuted. Qed.
 Print Assumptions C01_aes_decompress_empty_chunk_refuted.
 
-(* REACHABILITY of the short-chunk refutation through SevenZipDecompressor._read_data: with
-   short reads at volume boundaries (volumes of 70 bytes, block size 32) the fifth read hands
-   the AES stage 6 bytes on a residue of 6: the stage raises after 96 of 112 bytes; with full
-   reads the same object delivers all 112 bytes.  (The empty-chunk refutation is not reachable
-   for archives py7zr writes: AES is always the first decoder stage, _unused is never
-   non-empty, and _read_data returns b"" only when the whole packed stream, a multiple of 16
-   bytes, has been consumed.) *)
-Theorem C01_aes_short_read_reachable_refuted :
-  exists (bs : Z) (calls : list (Z * nat)) (st' : dstate aes_dstage) (outs : bytes),
-    map snd calls = map Z.to_nat (firstn 5 (mv_chunks 10 32 112 bs 70)) /\
-    decompress_seq (aes_dstep Aes.toyD) (rt_state bs) calls = Ok (st', outs) /\
-    stages st' = [Err EOther] /\ zlen outs = 96 /\ zlen rt_plain = 112 /\
-    (exists st'', worker_decompress (aes_dstep Aes.toyD) 10 (rt_state bs) 112 1000 [] = Ok (st'', rt_plain)).
-Proof. exact aes_short_read_reachable_refuted. Qed.
-Print Assumptions C01_aes_short_read_reachable_refuted.
+(* that empty chunk is not reachable for archives py7zr writes (AES is always the first decoder stage, _unused is
+   never non-empty, _read_data returns b"" only when the whole packed stream, a multiple of 16 bytes, has been
+   consumed), and every read schedule _read_data produces -- any block size, any volume size -- is safe *)
+Theorem C01_aes_read_schedules_ok :
+  forall (fuel : nat) (p n bs V : Z), dec_sizes_ok 0 (mv_chunks fuel p n bs V) = true.
+Proof. exact mv_schedules_ok. Qed.
+Print Assumptions C01_aes_read_schedules_ok.
 
-(* read schedules of _read_data by computation: default block size on one file, block size 17,
-   70-byte volumes with the default block size are safe; volumes of 1 MiB + 4 bytes with the
-   DEFAULT block size (1 MiB) are not, nor is block size 32 with 70-byte volumes *)
+(* through SevenZipDecompressor: volumes of 70 bytes, block size 32; the fifth read hands the AES stage 6 bytes on a
+   residue of 6 (ValueError before the repair): they are kept, and the loop delivers all 112 bytes, as with full reads *)
+Theorem C01_aes_short_read_delivered :
+  (exists st', worker_decompress (aes_dstep Aes.toyD) 10 (rt_state 32) 112 1000
+                                 (map Z.to_nat (mv_chunks 10 32 112 32 70)) = Ok (st', rt_plain)) /\
+  (exists st'', worker_decompress (aes_dstep Aes.toyD) 10 (rt_state 32) 112 1000 [] = Ok (st'', rt_plain)) /\
+  (exists st5 outs, decompress_seq (aes_dstep Aes.toyD) (rt_state 32)
+                      [(112, 32%nat); (80, 6%nat); (80, 32%nat); (48, 32%nat); (16, 6%nat)] = Ok (st5, outs) /\
+                    zlen outs = 96 /\
+                    exists a, stages st5 = [Ok a] /\ Aes.blen (Aes.dbuf a) = 12).
+Proof. exact aes_short_read_delivered. Qed.
+Print Assumptions C01_aes_short_read_delivered.
+
+(* read schedules of _read_data by computation; the last two raised before the repair (volumes of 1 MiB + 4 bytes
+   at the DEFAULT block size; block size 32 with 70-byte volumes) *)
 Theorem C01_read_schedules :
   mv_chunks 10 32 3145744 1048576 (2 ^ 62) = [1048576; 1048576; 1048576; 16] /\
-  dec_sizes_ok 0 (mv_chunks 10 32 3145744 1048576 (2 ^ 62)) = true /\
-  dec_sizes_ok 0 (mv_chunks 20 32 112 17 (2 ^ 62)) = true /\
   mv_chunks 10 32 208 1048576 70 = [38; 70; 70; 30] /\
-  dec_sizes_ok 0 (mv_chunks 10 32 208 1048576 70) = true /\
   mv_chunks 10 32 2097200 1048576 1048580 = [1048548; 1048576; 4; 72] /\
-  dec_sizes_ok 0 (mv_chunks 10 32 2097200 1048576 1048580) = false /\
+  dec_sizes_ok 0 (mv_chunks 10 32 2097200 1048576 1048580) = true /\
   mv_chunks 10 32 112 32 70 = [32; 6; 32; 32; 6; 4] /\
-  dec_sizes_ok 0 (mv_chunks 10 32 112 32 70) = false.
+  dec_sizes_ok 0 (mv_chunks 10 32 112 32 70) = true.
 Proof. exact mv_chunks_examples. Qed.
 Print Assumptions C01_read_schedules.
 
@@ -516,12 +528,20 @@ Theorem C01_gen_aes_decompress_chunking : forall (Db : bytes -> bytes) (iv : byt
 Proof. exact AesGen.gen_aes_decompress_chunking. Qed.
 Print Assumptions C01_gen_aes_decompress_chunking.
 
-(* recorded (the ValueError behaviour of the code as it is): a short chunk on a non-empty residue makes the cipher raise *)
-Theorem C01_gen_aes_decompress_short_raises : forall (Db : bytes -> bytes) (buf c d : bytes) (max_length : Z),
-  0 < Aes.blen buf -> 0 < Aes.blen d -> Aes.blen buf + Aes.blen d < 16 ->
-  AesBuf.AESDecompressor_decompress Aes.cst (AesGen.dec_chk Db) buf c d max_length = Err EOther.
-Proof. exact AesGen.gen_decompress_short_raises. Qed.
-Print Assumptions C01_gen_aes_decompress_short_raises.
+(* the repaired behaviour over the generated code: a short chunk on a non-empty residue is kept, the cipher is not called *)
+Theorem C01_gen_aes_decompress_short_buffers : forall (Db : bytes -> bytes) (buf c d : bytes) (max_length : Z),
+  0 < Aes.blen d -> Aes.blen buf + Aes.blen d < 16 ->
+  AesBuf.AESDecompressor_decompress Aes.cst (AesGen.dec_chk Db) buf c d max_length = Ok ([], (buf ++ d, c)).
+Proof. exact AesGen.gen_decompress_short_buffers. Qed.
+Print Assumptions C01_gen_aes_decompress_short_buffers.
+
+(* hence every chunking into non-empty chunks decrypts correctly, over the generated code with the raising cipher *)
+Theorem C01_gen_aes_decompress_chunking_nonempty : forall (Db : bytes -> bytes) (iv : bytes) (chunks : list bytes),
+  Forall (fun d => 0 < Aes.blen d) chunks ->
+  AesGen.gen_decompress_stream Aes.cst (AesGen.dec_chk Db) iv chunks
+  = Ok (fst (Aes.cbc_dec Db iv (Aes.pad16 (concat chunks)))).
+Proof. exact AesGen.gen_aes_decompress_chunking_nonempty. Qed.
+Print Assumptions C01_gen_aes_decompress_chunking_nonempty.
 
 (* helpers.calculate_crc32: the block loop computes the one-shot CRC, for EVERY function zcrc32 in the place of
    zlib.crc32 that satisfies the append law and stays in 32 bits, every positive block size, enough fuel for the
